@@ -246,6 +246,40 @@ def sweep_cases(rng, tier, which):
                 e = exact_equal(dense_of(y), dx.reshape(list(Md) + list(Nd)))
                 return ("reshape (TT-matrix) with exact oracles and no truncation must keep the row-major entry order of rows and columns: " + e) if e else None
             cases.append(Case(J("reshapettm", cap, len(dst), [v for p in dst for v in p], tt_tokens(x)), impl, oracle, "sweep/reshape_ttm/d%d->%d/cap%s" % (d, k, cap), True, gauge_ok=False))
+        elif which == "to_qtt":
+            d = rng.randint(1, 3)
+            ms = rng.choice([2, 2, 3])
+            N = [ms ** rng.randint(0, 3 if ms == 2 else 2) for _ in range(d)]
+            x = rand_tt(rng, N, rand_ranks(rng, d, 3), tn.float64)
+            dx = dense_of(x)
+
+            def impl(x=x, cap=cap, ms=ms):
+                with FakePrims(cap):
+                    y = x.to_qtt(eps=0.5, mode_size=ms)
+                return out_tt(y)
+
+            def oracle(x=x, dx=dx, cap=cap, ms=ms, N=N):
+                if cap < 1000:
+                    return None
+                with FakePrims(cap):
+                    y = x.to_qtt(eps=0.5, mode_size=ms)
+                e = exact_equal(dense_of(y).reshape(-1), dx.reshape(-1))
+                if e:
+                    return "to_qtt with exact oracles and no truncation must keep the row-major entry order: " + e
+                if any(n not in (1, ms) for n in y.N):
+                    return "to_qtt left a mode of size %s" % (list(y.N),)
+                z = y.qtt_to_tens(list(N))
+                e = exact_equal(dense_of(z), dx)
+                return ("qtt_to_tens(to_qtt(x)) differs from x: " + e) if e else None
+            cases.append(Case(J("toqtt", cap, ms, tt_tokens(x)), impl, oracle, "sweep/to_qtt/ms%d/d%d/cap%s" % (ms, d, cap), True, gauge_ok=False))
+            if cap == 1000:
+                def impl2(x=x, ms=ms, N=N):
+                    with FakePrims(1000):
+                        y = x.to_qtt(eps=0.5, mode_size=ms)
+                    return out_tt(y.qtt_to_tens(list(N)))
+                with FakePrims(1000):
+                    y0 = x.to_qtt(eps=0.5, mode_size=ms)
+                cases.append(Case(J("qtttotens", [len(N)] + N, tt_tokens(y0)), impl2, None, "sweep/qtt_to_tens/ms%d/d%d" % (ms, d), True, gauge_ok=False))
         elif which == "reshape":
             N = [rng.choice([1, 2, 3, 4, 6]) for _ in range(rng.randint(1, 4))]
             d = len(N)
